@@ -804,6 +804,25 @@ def gen_packed(rng, tier):
                     arr.remove(v)
                     steps.append(f"bs:{hx(len(arr))}:{hx(v)}")
             ops.append(f"packed.hist b={hx(b)} s={hx(S)} v={var} n={hx(n)} init=0 " + " ".join(steps))
+    # E: sorted arrays LARGER THAN 32 KiB with runs of equal elements (init=s<run>): membership / lower bound must return
+    # the FIRST equal element also when the run straddles an index that is a multiple of 64 / 1024 / 4096 (a search that
+    # first narrows to a block and then searches inside it returns the block's first element instead)
+    for (b, S, var) in [i for i in ([(13, 32, "d"), (12, 32, "d")] if tier == "quick" else [(13, 32, "d"), (12, 32, "d"), (17, 16, "d")])
+                        if i in packed_insts()]:
+        for run in ((5,) if tier == "quick" else (3, 5, 7, 9)):
+            ln = 25000 if tier == "quick" else 40000
+            if ln // run >= (1 << b):
+                continue
+            n = (ln * b + S - 1) // S + 2
+            steps = []
+            for mlt in (64, 128, 1024, 4096, 64 * 301, 64 * 377):
+                v = mlt // run
+                if (v + 1) * run <= ln:
+                    steps.append(f"mem:{hx(ln)}:{hx(v)}")
+                    steps.append(f"bs:{hx(ln)}:{hx(v)}")
+            steps.append(f"mem:{hx(ln)}:{hx((ln - 1) // run)}")
+            steps.append(f"bs:{hx(ln)}:{hx(0)}")
+            ops.append(f"packed.hist b={hx(b)} s={hx(S)} v={var} n={hx(n)} init=s{hx(run)} " + " ".join(steps))
     return ops
 
 
